@@ -556,13 +556,57 @@ func ruleJSN4(c *Ctx) {
 		desc string
 		cond func(iff *ssa.If, fn *ssa.Function) (bool, int)
 	}
+	// a comparison of len(x) with a constant, read as the set of lengths on its true edge ([lo,hi], hi < 0: unbounded):
+	// `== 0`, `< 1` and `<= 0` are the same test, and so is the false edge of `> 0` / `!= 0`
+	const inf = int64(-1)
+	// (lo, hi, complemented): lengths in [lo,hi] (hi == inf: unbounded), or everything outside when complemented
+	lenInterval := func(op token.Token, k int64) (lo, hi int64, compl bool, ok bool) {
+		switch op {
+		case token.EQL:
+			return k, k, false, true
+		case token.NEQ:
+			return k, k, true, true
+		case token.LSS:
+			return 0, k - 1, false, true
+		case token.LEQ:
+			return 0, k, false, true
+		case token.GTR: // complement of [0,k]
+			return 0, k, true, true
+		case token.GEQ: // complement of [0,k-1]
+			return 0, k - 1, true, true
+		}
+		return 0, 0, false, false
+	}
 	lenCmp := func(op token.Token, k int64) func(iff *ssa.If, fn *ssa.Function) (bool, int) {
+		wantLo, wantHi, wantC, _ := lenInterval(op, k)
 		return func(iff *ssa.If, fn *ssa.Function) (bool, int) {
-			bo, ok := iff.Cond.(*ssa.BinOp)
-			if !ok || bo.Op != op {
+			cond, neg := iff.Cond, false
+			for {
+				u, isNot := cond.(*ssa.UnOp)
+				if !isNot || u.Op != token.NOT {
+					break
+				}
+				cond, neg = u.X, !neg
+			}
+			bo, ok := cond.(*ssa.BinOp)
+			if !ok {
 				return false, 0
 			}
-			call, ok := bo.X.(*ssa.Call)
+			x, y, bop := bo.X, bo.Y, bo.Op
+			if _, isK := constInt(x); isK { // k OP len(x)
+				x, y = y, x
+				switch bop {
+				case token.LSS:
+					bop = token.GTR
+				case token.LEQ:
+					bop = token.GEQ
+				case token.GTR:
+					bop = token.LSS
+				case token.GEQ:
+					bop = token.LEQ
+				}
+			}
+			call, ok := x.(*ssa.Call)
 			if !ok {
 				return false, 0
 			}
@@ -570,8 +614,22 @@ func ruleJSN4(c *Ctx) {
 			if !ok || bi.Name() != "len" {
 				return false, 0
 			}
-			kk, ok := constInt(bo.Y)
-			return ok && kk == k, 0
+			kk, ok := constInt(y)
+			if !ok {
+				return false, 0
+			}
+			lo, hi, cpl, ok := lenInterval(bop, kk)
+			if !ok || lo != wantLo || hi != wantHi {
+				return false, 0
+			}
+			succ := 0
+			if neg {
+				succ = 1
+			}
+			if cpl == wantC {
+				return true, succ
+			}
+			return true, 1 - succ
 		}
 	}
 	nilField := func(name string) func(iff *ssa.If, fn *ssa.Function) (bool, int) {
